@@ -6,8 +6,10 @@
 // (symlinks into /repo/lsp4spl/src), so `crate::document::…` paths resolve unchanged.
 include!("repo_mods.rs");
 
+mod devtools;
 mod driver;
 mod lexglue;
+mod pinned_triage;
 mod props;
 mod srv;
 mod walk;
@@ -44,6 +46,21 @@ fn main() {
         std::process::exit(2);
     }
     let id = args[1].clone();
+    if id == "DEV-TREES" {
+        install_panic_hook();
+        devtools::show_trees(&args[2], args[3].parse().unwrap(), args[4].parse().unwrap(), &args[5]);
+        return;
+    }
+    if id == "DEV-EXPLAIN" {
+        install_panic_hook();
+        devtools::explain(&args[2]);
+        return;
+    }
+    if id == "DEV-MIN" {
+        install_panic_hook();
+        devtools::minimise(args.get(2).and_then(|s| s.parse().ok()).unwrap_or(2000), args.get(3).and_then(|s| s.parse().ok()).unwrap_or(1));
+        return;
+    }
     let mut tier = std::env::var("VERIF_TIER").unwrap_or_else(|_| "quick".into());
     let mut replay_file = None;
     let mut i = 2;
